@@ -110,9 +110,11 @@ def absorb(result, results, what="evaluator"):
                 d["model_tree"] = r["model"]["tree"]
             result.disagreements.append(d)
         if v == "impl-died":
-            result.judge_failures.append({"what": "implementation process died (abort/stack overflow)",
-                                          "class": "impl-died", "rules": r["case"]["rules"], "data": r["case"]["data"],
-                                          "rc": impl.get("rc")})
+            rec = "c08_param_recursion" in globals() and c08_param_recursion(r["case"]["rules"])
+            result.judge_failures.append({"what": "implementation process died (abort/stack overflow)" + (
+                                              ": a parameterised rule calls itself" if rec else ""),
+                                          "class": "c08-param-rule-recursion" if rec else "impl-died",
+                                          "rules": r["case"]["rules"], "data": r["case"]["data"], "rc": impl.get("rc")})
 
 
 def random_cases(seed, n, cfn=None):
@@ -2948,3 +2950,507 @@ def run_C19(ctx):
 
 
 register("C19", ["Guard.Properties.C19"], run_C19, needs_cli=True)
+
+
+# =============================================================================== C05
+
+C05_ENVS = [{}, {"LANG": "C", "LC_ALL": "C"}, {"TZ": "Asia/Tokyo", "LC_ALL": "C.UTF-8"},
+            {"HOME": "/nonexistent", "COLUMNS": "40", "TERM": "dumb"}, {"RUST_BACKTRACE": "1", "USER": "someone-else"},
+            {"TZ": "America/Los_Angeles", "PWD": "/"}, {"LANG": "tr_TR.UTF-8"}]
+
+
+def c05_norm(kind, text):
+    """what the statement excludes from byte identity: JUnit elapsed-time attributes; for console output, the
+    order of lines"""
+    import re as _re
+    if kind == "junit":
+        return _re.sub(r'\btime="[^"]*"', 'time=""', text)
+    if kind == "plain":
+        return "\n".join(sorted(text.split("\n")))
+    return text
+
+
+def c05_scenarios(ctx, n):
+    import re as _re
+    rng = random.Random(ctx.seed * 977 + 5)
+    out = []
+    for i in range(n):
+        g = gen.G(ctx.seed * 2300017 + i)
+        kind = ["validate", "validate", "validate", "test", "parse-tree", "rulegen"][i % 6]
+        if kind == "validate":
+            cfn = rng.random() < 0.5
+            docs = [g.cfn_doc() if cfn else g.doc() for _ in range(rng.choice([1, 2, 3]))]
+            rfiles = [g.rules_file(docs[0], depth=2, cfn=cfn) for _ in range(rng.choice([1, 2]))]
+            files = {}
+            for k, t in enumerate(rfiles):
+                files["rd/r%d.guard" % k] = t
+            for k, d in enumerate(docs):
+                files["dd/d%d.json" % k] = json.dumps(d)
+            ra = sum([["-r", "{DIR}/rd/r%d.guard" % k] for k in range(len(rfiles))], [])
+            da = sum([["-d", "{DIR}/dd/d%d.json" % k] for k in range(len(docs))], [])
+            base = ["validate"] + ra + da
+            modes = [("plain", "plain", base + ["-S", "all"]),
+                     ("verbose", "plain", base + ["-S", "all", "-v"]),
+                     ("print-json", "plain", base + ["-S", "all", "-p"]),      # JSON tree followed by the console report
+                     ("o-json", "bytes", base + ["-o", "json", "-S", "none"]),
+                     ("o-yaml", "bytes", base + ["-o", "yaml", "-S", "none"]),
+                     ("s-json", "bytes", base + ["--structured", "-o", "json", "-S", "none"]),
+                     ("s-yaml", "bytes", base + ["--structured", "-o", "yaml", "-S", "none"]),
+                     ("s-sarif", "bytes", base + ["--structured", "-o", "sarif", "-S", "none"]),
+                     ("s-junit", "junit", base + ["--structured", "-o", "junit", "-S", "none"]),
+                     ("dir-a", "plain", ["validate", "-r", "{DIR}/rd", "-d", "{DIR}/dd", "-a", "-S", "all"]),
+                     ("dir-a-json", "bytes", ["validate", "-r", "{DIR}/rd", "-d", "{DIR}/dd", "-a", "--structured", "-o", "json", "-S", "none"])]
+            if cfn:
+                modes.append(("cfn-plain", "plain", base + ["-S", "all", "-t", "CFNTemplate"]))
+            out.append({"kind": kind, "files": files, "modes": modes, "rules": "\n---\n".join(rfiles),
+                        "data": json.dumps(docs)})
+        elif kind == "test":
+            gg = gen.G(ctx.seed * 1300021 + i, core=True)
+            doc = gg.doc()
+            rules = gg.rules_file(doc, depth=2, cfn=False)
+            names = sorted(set(_re.findall(r"^rule (\w+)", rules, _re.M))) or ["default"]
+            specs = []
+            for k in range(rng.choice([1, 2, 3, 4])):
+                inp = doc if k == 0 else gen.G(ctx.seed * 77 + i * 13 + k).doc()
+                exp = {nm: rng.choice(["PASS", "FAIL", "SKIP"]) for nm in names if rng.random() < 0.8}
+                specs.append({"name": "case%d" % k, "input": inp, "expectations": {"rules": exp}})
+            files = {"x.guard": rules, "x_tests.json": json.dumps(specs),
+                     "d/y.guard": rules, "d/tests/y_tests.json": json.dumps(specs), "d/z.guard": rules,
+                     "d/tests/z_tests.json": json.dumps(specs[:1])}
+            base = ["test", "-r", "{DIR}/x.guard", "-t", "{DIR}/x_tests.json"]
+            modes = [("plain", "plain", base), ("verbose", "plain", base + ["-v"]),
+                     ("json", "bytes", base + ["-o", "json"]), ("yaml", "bytes", base + ["-o", "yaml"]),
+                     ("junit", "junit", base + ["-o", "junit"]),
+                     ("dir-plain", "plain", ["test", "-d", "{DIR}/d", "-a"]),
+                     ("dir-json", "bytes", ["test", "-d", "{DIR}/d", "-a", "-o", "json"]),
+                     ("dir-junit", "junit", ["test", "-d", "{DIR}/d", "-a", "-o", "junit"])]
+            out.append({"kind": kind, "files": files, "modes": modes, "rules": rules, "data": json.dumps(specs)})
+        elif kind == "parse-tree":
+            doc = g.doc()
+            rules = g.rules_file(doc, depth=2, cfn=False)
+            base = ["parse-tree", "-r", "{DIR}/r.guard"]
+            modes = [("default", "bytes", base), ("json", "bytes", base + ["-p"]), ("yaml", "bytes", base + ["-y"])]
+            out.append({"kind": kind, "files": {"r.guard": rules}, "modes": modes, "rules": rules, "data": ""})
+        else:
+            t = c19_template(g, clean=rng.random() < 0.7)
+            txt = json.dumps(t)
+            modes = [("rulegen", "plain", ["rulegen", "-t", "{DIR}/t.json"])]
+            out.append({"kind": kind, "files": {"t.json": txt}, "modes": modes, "rules": "", "data": txt})
+    return out
+
+
+def run_C05(ctx):
+    res = Result("generated rules x documents through validate (plain, verbose, print-json, -o json/yaml, structured json / "
+                 "yaml / sarif / junit, directories with -a, CFN reporter), test (plain, verbose, json, yaml, junit, --dir), "
+                 "parse-tree (default, -p, -y) and rulegen: every (scenario, mode) run in 5 FRESH processes of the real binary "
+                 "(fresh hash seeds, 5 different environments: LANG / LC_ALL / TZ / HOME / COLUMNS / TERM / USER) and 5 times "
+                 "inside ONE long-lived process that evaluates other scenarios in between; exit codes equal, structured output "
+                 "byte-identical (JUnit modulo time=), console output identical as a multiset of lines; non-trivial = distinct "
+                 "(scenario, mode) that evaluated and printed more than one line")
+    import hashlib
+    n = 420 if ctx.thorough() else 48
+    reps = 8 if ctx.thorough() else 5
+    scen = c05_scenarios(ctx, n)
+    # fresh processes
+    jobs, jown = [], []
+    for si, s in enumerate(scen):
+        for (mode, cmp_, argv) in s["modes"]:
+            for r in range(reps):
+                jobs.append({"argv": argv, "files": s["files"], "env_extra": C05_ENVS[r % len(C05_ENVS)]})
+                jown.append((si, mode, r))
+    fresh = dict(zip(jown, vlib.run_cli_many(jobs)))
+    # one process, repeated with other work in between: request (r, j) goes to worker j % NPROC for every r
+    flat = [(si, m) for si, s in enumerate(scen) for m in s["modes"]]
+    pad = (-len(flat)) % vlib.NPROC
+    reqs, rown = [], []
+    for r in range(reps):
+        for (si, (mode, cmp_, argv)) in flat:
+            reqs.append({"id": len(reqs), "op": "cli", "argv": argv, "files": scen[si]["files"]})
+            rown.append((si, mode, r))
+        for _ in range(pad):
+            reqs.append({"id": len(reqs), "op": "cli", "argv": ["parse-tree", "-r", "{DIR}/none.guard"], "files": {}})
+            rown.append(None)
+    inproc = {}
+    for own, resp in zip(rown, ctx.hp.map(reqs)):
+        if own is not None:
+            rr = resp.get("result") or {}
+            code = rr.get("code", "panic" if "panic" in rr else "?")
+            inproc[own] = {"code": code, "stdout": resp.get("stdout", ""), "stderr": resp.get("stderr", ""),
+                           "panic": rr.get("panic")}
+    for si, s in enumerate(scen):
+        for (mode, cmp_, argv) in s["modes"]:
+            res.evaluations += 1
+            res.stats["mode:%s/%s" % (s["kind"], mode)] += 1
+            info = {"rules": s["rules"], "data": s["data"], "argv": argv, "files": s["files"], "mode": mode, "kind": s["kind"]}
+            for where, table in (("fresh-process", fresh), ("in-process", inproc)):
+                runs = [table[(si, mode, r)] for r in range(reps)]
+                codes = {str(o["code"]) for o in runs}
+                if len(codes) != 1:
+                    res.judge_failures.append(dict(info, what="%s runs of `%s` exit with different codes %s" % (where, " ".join(argv[:1]) + "/" + mode, sorted(codes)),
+                                                   where=where, **{"class": "c05-exit-%s-%s" % (s["kind"], mode)}))
+                    continue
+                for stream, c in (("stdout", cmp_), ("stderr", "plain")):
+                    outs = [c05_norm(c, o[stream]) for o in runs]
+                    if len(set(outs)) != 1:
+                        a = outs[0]
+                        b = next(x for x in outs if x != a)
+                        la, lb = a.split("\n"), b.split("\n")
+                        k = next((j for j in range(min(len(la), len(lb))) if la[j] != lb[j]), min(len(la), len(lb)))
+                        res.judge_failures.append(dict(
+                            info, where=where, stream=stream,
+                            what="%s runs of %s/%s print different %s (%s comparison); first difference at line %d: %r vs %r" % (
+                                where, s["kind"], mode, stream, "byte" if c != "plain" else "sorted-line", k,
+                                la[k][:160] if k < len(la) else None, lb[k][:160] if k < len(lb) else None),
+                            **{"class": "c05-%s-%s-%s" % (s["kind"], mode, stream)}))
+                    elif c == "plain" and stream == "stdout" and len({o["stdout"] for o in runs}) != 1:
+                        res.stats["plain-output-line-order-varies:%s/%s" % (s["kind"], mode)] += 1
+            o0 = fresh[(si, mode, 0)]
+            res.stats["exit:%s" % o0["code"]] += 1
+            if o0["code"] in (0, 19, 7) and o0["stdout"].count("\n") > 1:
+                res.nontrivial.add(hashlib.sha1((s["kind"] + mode + o0["stdout"]).encode()).hexdigest())
+            if si < 3 and mode in ("s-json", "plain", "json"):
+                res.add_sample({"kind": s["kind"], "mode": mode, "exit": o0["code"], "stdout_head": o0["stdout"][:200]})
+    res.extra["repeats"] = {"fresh_processes": reps, "in_process": reps, "environments": C05_ENVS[:reps]}
+    return res
+
+
+register("C05", ["Guard.Properties.C05"], run_C05, needs_cli=True)
+
+
+# =============================================================================== C08
+
+C08_ADVERSARIAL = [
+    # unary check on a literal variable / literal left-hand sides
+    ("let v = 2\nrule r { %v exists\n%v is_string\n%v empty\n%v !empty }\n", {"a": 1}),
+    ("let v = [1, 2]\nrule r { %v[*] is_int\nsome %v[0] == 1\n%v not empty <<m>> }\n", {"a": 1}),
+    ("let v = {a: {b: 1}}\nrule r { %v.a.b == 1\n%v.a.c exists\n%v.a[ b == 1 ] !empty }\n", {"a": 1}),
+    # substring bounds inside multi-byte characters, reversed and huge bounds
+    ("rule r { substring(a, 1, 2) == 'x'\nsubstring(a, 0, 1) == 'x'\nsubstring(a, 3, 1) == 'x'\nsubstring(a, 0, 70000) == 'x' }\n", {"a": "éé😀"}),
+    ("let s = substring(a, 1, 3)\nrule r { %s == 'é' }\n", {"a": "é😀é"}),
+    # type-mismatched and empty function arguments
+    ("rule r { join(a, b) == 'x'\nsubstring(a, b, c) == 'x'\nregex_replace(a, b, c) == 'x' }\n", {"a": [1, {"k": 1}], "b": {"z": 1}, "c": None}),
+    ("rule r { join(a, nothere) == 'x' }\nrule s { substring(a, nothere, 2) == 'x' }\nrule t { regex_replace(a, '(', nothere) == 'x' }\n", {"a": ["x"]}),
+    ("rule r { parse_int(a) == 1\nparse_float(a) == 1.0\nparse_char(a) == '1'\nparse_boolean(a) == true\njson_parse(a) == 1\nparse_epoch(a) == 1\nurl_decode(a) == 'x'\nto_upper(a) == 'X'\ncount(a) == 1 }\n",
+     {"a": [None, True, 1, 1.5, "x", [1], {"k": 1}]}),
+    ("rule r { json_parse(a) == 1 }\n", {"a": "{\"a\": [1, 2, {\"b\": 1e400}], \"c\": 18446744073709551616}"}),
+    ("rule r { regex_replace(a, '(a', 'x') == 'x'\nregex_replace(a, '(?<n>a)\\\\k<n>', '${n}') == 'x'\na == /(?<=a+)b/ }\n", {"a": "aab"}),
+    # chained filters, filters on scalars and maps, key filters
+    ("rule r { a[ b == 1 ][ c == 2 ][ d exists ].e == 1\na[*][*][*] == 1\na[ keys == /x/ ][ keys == 'y' ] !empty\na[0][ x == 1 ] empty }\n", {"a": {"x": {"y": 1}, "b": 1}}),
+    ("rule r { a[ this == 1 ] !empty\na[ b[ c[ d == 1 ] !empty ] !empty ] empty\na.*[ keys in ['x'] ] exists }\n", {"a": [1, [1], {"b": [{"c": [{"d": 1}]}]}]}),
+    # self-referential and mutually recursive rules, parameterised rules with wrong arity
+    ("rule r { r }\n", {"a": 1}),
+    ("rule a when b { x == 1 }\nrule b when a { x == 1 }\n", {"x": 1}),
+    ("rule p(x, y) { %x == %y }\nrule r { p(a) }\nrule s { p(a, b, c) }\nrule t { p(1, 'x') }\n", {"a": 1, "b": 1, "c": 1}),
+    ("rule p(x) { p(%x) }\nrule r { p(a) }\n", {"a": 1}),
+    # variable cycles, unresolved variables, variables shadowing
+    ("let a = %b\nlet b = %a\nrule r { %a == 1 }\n", {"a": 1}),
+    ("rule r { %nope == 1 }\n", {"a": 1}),
+    ("let v = a\nrule r { let v = b\n%v == 1\nwhen %v exists { let v = c\n%v == 1 } }\n", {"a": 1, "b": 1, "c": 1}),
+    # ranges, in, comparisons across types, regex against non-strings, empty lists / maps
+    ("rule r { a in r[1, 2)\na in r(1.5, 2.5]\na in [r[0, 1], 'x', null]\na == /x/\na > 'x'\na <= null\na >= {k: 1}\na < [1] }\n", {"a": [1, 1.5, "x", None, {"k": 1}, [1]]}),
+    ("rule r { a empty\nb empty\nc empty\nd empty\nsome a[*] == 1\na[*] == 1\nb.* == 1\nb[*] exists\na not in []\n[] in a }\n", {"a": [], "b": {}, "c": "", "d": None}),
+    # type blocks and when blocks on odd documents
+    ("rule r { AWS::S3::Bucket { Properties.a == 1 } }\n", {"Resources": [1, 2]}),
+    ("rule r { AWS::S3::Bucket { Properties.a == 1 } }\n", {"Resources": {"x": {"Type": ["AWS::S3::Bucket"]}, "y": None, "z": {"Type": "AWS::S3::Bucket"}}}),
+    ("rule r when a exists\nb !exists { when c == 1 { d == 1 } }\n", {"a": 1}),
+    # custom messages, odd spellings
+    ("rule r { a == 1 <<\nmulti\nline é 😀 >>\nb == 2 << >> }\n", {"a": 2, "b": 1}),
+    ("rule r { this == 1\nthis.this == 1\nthis[*] == 1\n'a' == 1\n\"a\".b == 1\na.'b c'.\"d\" exists }\n", {"a": {"b c": {"d": 1}}}),
+    ("rule r { a.b.c.d.e.f.g.h.i.j.k.l.m.n.o.p.q.r.s.t.u.v.w.x.y.z exists\na[0][1][2][3][4][5][6][7][8][9] exists }\n", {"a": {"b": 1}}),
+    ("rule r { keys a == 'x'\nsome keys a[*] in ['k']\na[ keys == 'k' ].x exists }\n", {"a": {"k": {"x": 1}}}),
+    ("rule r { now() > 0\nparse_epoch('2020-01-01T00:00:00Z') < now()\nparse_epoch(a) == 0 }\n", {"a": "not a date"}),
+    ("rule r { count(a) == 2\ncount(b) == 0\ncount(nothere) == 0\ncount(a[*][*]) >= 0 }\n", {"a": [1, [2, 3]], "b": {}}),
+]
+
+
+def c08_nested(depth, kind):
+    if kind == "json-list":
+        return "[" * depth + "1" + "]" * depth
+    if kind == "json-map":
+        return '{"a":' * depth + "1" + "}" * depth
+    if kind == "yaml-flow":
+        return "{a: " * depth + "[1]" + "}" * depth
+    return "".join("  " * i + "a:\n" for i in range(depth)) + "  " * depth + "- 1\n"
+
+
+C08_INSERTS = ["é", "\u2028", "😀", "\x00", "\ufeff", "\r", "\t", "\x7f", "\u0301", "\U0001F1E6", "ß", "İ"]
+C08_TOKENS = ["rule", "when", "let", "{", "}", "[", "]", "(", ")", "<<", ">>", "==", "!=", ":=", "=", "%", "%v", "*", ".", ",",
+              "or", "OR", "|OR|", "not", "!", "some", "this", "keys", "in", "exists", "empty", "/", "'", '"', "#", "\\", "r[", "r(",
+              "null", "1e999", "-", "0x10", "9223372036854775808", "::", "---", "&a", "*a", "!Ref", "!GetAtt", "!!binary", "? ", ": ", "- ",
+              "|", ">", "<<:", "~", "true", "{{", "}}"]
+
+
+def c08_mutate(rng, text, other):
+    """byte/token mutation: truncation, deletion, duplication, splice, unicode / invalid-UTF-8 insertion"""
+    b = text.encode("utf-8")
+    k = rng.randrange(9)
+    n = len(b)
+    if n == 0:
+        return rng.choice(C08_TOKENS).encode()
+    i = rng.randrange(n)
+    j = min(n, i + rng.choice([1, 1, 2, 5, 20, 100]))
+    if k == 0:
+        return b[:i]
+    if k == 1:
+        return b[:i] + b[j:]
+    if k == 2:
+        return b[:j] + b[i:j] * rng.choice([1, 2, 5]) + b[j:]
+    if k == 3:
+        o = other.encode("utf-8")
+        oi = rng.randrange(len(o) + 1)
+        return b[:i] + o[oi:oi + rng.choice([5, 20, 80])] + b[j if rng.random() < 0.5 else i:]
+    if k == 4:
+        return b[:i] + rng.choice(C08_INSERTS).encode("utf-8") + b[i:]
+    if k == 5:
+        return b[:i] + bytes([rng.choice([0xff, 0xc3, 0x80, 0xfe, 0xed, 0xa0, 0xf4, 0x90])]) + b[i:]
+    if k == 6:
+        return b[:i] + (" " + rng.choice(C08_TOKENS) + " ").encode() + b[i:]
+    if k == 7:
+        toks = text.split(" ")
+        if len(toks) > 2:
+            a, c = rng.randrange(len(toks)), rng.randrange(len(toks))
+            toks[a], toks[c] = toks[c], toks[a]
+        return " ".join(toks).encode()
+    bb = bytearray(b)
+    bb[i] = rng.randrange(256)
+    return bytes(bb)
+
+
+def c08_wire(content):
+    """file content for the harness (`bytes_of`): text when it is UTF-8 that JSON can carry, hex otherwise"""
+    if isinstance(content, str):
+        return content
+    try:
+        s = content.decode("utf-8")
+        if "\x00" not in s:
+            return s
+    except UnicodeDecodeError:
+        pass
+    return {"hex": content.hex()}
+
+
+C08_EXIT_DOC = {"validate": {0, 19, 5, 255}, "test": {0, 7, 1, 255}, "parse-tree": {0, 5, 255}, "rulegen": {0, 1, 255}}
+
+
+def c08_param_recursion(rules):
+    """does some parameterised rule call itself, directly or through other parameterised rules?"""
+    import re as _re
+    defs = [(m.group(1), m.start()) for m in _re.finditer(r"^\s*rule\s+(\w+)\s*\(", rules, _re.M)]
+    tops = sorted(m.start() for m in _re.finditer(r"^\s*rule\s", rules, _re.M)) + [len(rules)]
+    names = {n for n, _ in defs}
+    calls = {}
+    for n, st in defs:
+        end = min(t for t in tops if t > st)
+        hdr = rules.index("{", st) if "{" in rules[st:end] else st
+        body = rules[hdr:end]
+        calls.setdefault(n, set()).update(c for c in names if _re.search(r"\b%s\s*\(" % _re.escape(c), body))
+    def reach(a, seen):
+        for b in calls.get(a, ()):
+            if b in seen:
+                continue
+            seen.add(b)
+            reach(b, seen)
+        return seen
+    return any(n in reach(n, set()) for n in names)
+
+
+C08_NESTED_FILTER_PROBE = "rule r { " + "a[ " * 24 + "b == 1" + " ] !empty" * 24 + " }\n"
+
+
+def c08_panic_class(cmd, text):
+    import re as _re
+    m = _re.search(r"panicked at ([^\n:]+:\d+)", text or "")
+    if m:
+        return "c08-panic-%s" % m.group(1).replace("guard/src/", "")
+    return "c08-panic-%s-%s" % (cmd, _re.sub(r"[^a-zA-Z]+", "-", (text or "")[:50]).strip("-"))
+
+
+def run_C08(ctx):
+    res = Result("(A) parser-accepted programs (random + a list of adversarial ones: unary checks on literal variables, substring "
+                 "bounds inside multi-byte characters, type-mismatched / empty function arguments, chained filters, self-referential "
+                 "rules, wrong arities, variable cycles) x documents through run_checks in verbose and report mode under catch_unwind, "
+                 "compared with the total Lean model; (B) grammar-generated then byte/token-MUTATED rule files, data files (JSON, YAML), "
+                 "test files, payloads and input-parameter files, plus nesting to depth 60, through validate / test / parse-tree / rulegen "
+                 "in-process (catch_unwind, 20 s timeout) and in the real binary (signals, exit status, 30 s timeout); (C) every mutated "
+                 "rules file the library parser rejects must give exit 5 / 1 / 255 with a message naming line and column and no rule "
+                 "result; non-trivial = distinct mutated input that reached a diagnostic or an evaluation")
+    import re as _re
+    import yaml as _yaml
+    rng = random.Random(ctx.seed * 811 + 8)
+    # ---------------------------------------------------------------- (A)
+    nA = 6000 if ctx.thorough() else 500
+    cases = [{"rules": r, "data": json.dumps(d)} for r, d in C08_ADVERSARIAL] + load_corpus(ctx.prop) + random_cases(ctx.seed + 8, nA)
+    results = vlib.correspond(cases, ctx.hp, ctx.mp, detail=True)
+    absorb(res, results, "evaluator (no-crash stream)")
+    for r in results:
+        impl = r.get("impl") or {}
+        if impl.get("kind") == "panic":
+            res.judge_failures.append({"what": "run_checks panicked: %s" % impl.get("msg"), "rules": r["case"]["rules"], "data": r["case"]["data"],
+                                       "class": c08_panic_class("run_checks", impl.get("msg"))})
+    rreqs = [{"id": i, "op": "case", "rules": c["rules"], "data": c["data"], "verbose": False, "report": True} for i, c in enumerate(cases)]
+    for c, r in zip(cases, ctx.hp.map(rreqs, timeout=30)):
+        res.evaluations += 1
+        if "died" in r:
+            rec = c08_param_recursion(c["rules"])
+            res.judge_failures.append({"what": "process died in run_checks report mode (%s)%s" % (r["died"], ": a parameterised rule calls itself" if rec else ""),
+                                       "rules": c["rules"], "data": c["data"],
+                                       "class": "c08-param-rule-recursion" if rec else "c08-died-run_checks-%s" % r["died"]})
+            continue
+        for part in ("ast", "doc", "report"):
+            if isinstance(r.get(part), dict) and "panic" in r[part]:
+                res.judge_failures.append({"what": "%s panicked: %s" % (part, r[part]["panic"][:200]), "rules": c["rules"], "data": c["data"],
+                                           "class": c08_panic_class(part, r[part]["panic"])})
+        res.stats["report-mode:" + ("ok" if "ok" in (r.get("report") or {}) or "ok_text" in (r.get("report") or {}) else "err")] += 1
+    # ---------------------------------------------------------------- (B) mutated inputs
+    nB = 9000 if ctx.thorough() else 900
+    scen = []
+    for i in range(nB):
+        g = gen.G(ctx.seed * 2900017 + i)
+        cfn = rng.random() < 0.3
+        doc = g.cfn_doc() if cfn else g.doc()
+        rules = g.rules_file(doc, depth=2, cfn=cfn)
+        fmt = rng.choice(["json", "json", "yaml-block", "yaml-flow"])
+        data = json.dumps(doc) if fmt == "json" else _yaml.safe_dump(doc, default_flow_style=(fmt == "yaml-flow"), allow_unicode=True)
+        other = gen.G(ctx.seed * 31 + i).rules_file(doc, depth=1) if rng.random() < 0.5 else data
+        kind = rng.choice(["v-rules", "v-rules", "v-data", "v-data", "v-both", "v-params", "v-payload", "t-rules", "t-tests", "pt", "rulegen", "nest"])
+        mut = lambda t: c08_mutate(rng, t, other) if rng.random() < 0.8 else c08_mutate(rng, c08_mutate(rng, t, other).decode("utf-8", "replace"), other)
+        s = {"kind": kind, "rules_text": rules, "data_text": data}
+        sflags = ["--structured", "-o", rng.choice(["json", "yaml", "sarif", "junit"]), "-S", "none"] if rng.random() < 0.5 else \
+                 ["-S", "all"] + (["-v"] if rng.random() < 0.3 else []) + (["-p"] if rng.random() < 0.2 else [])
+        if kind in ("v-rules", "v-data", "v-both"):
+            r_ = mut(rules) if kind != "v-data" else rules
+            d_ = mut(data) if kind != "v-rules" else data
+            s.update(cmd="validate", files={"r.guard": r_, "d.yaml": d_}, argv=["validate", "-r", "{DIR}/r.guard", "-d", "{DIR}/d.yaml"] + sflags,
+                     mutated_rules=r_ if kind != "v-data" else None)
+        elif kind == "v-params":
+            s.update(cmd="validate", files={"r.guard": rules, "d.yaml": data, "p.yaml": mut(data)},
+                     argv=["validate", "-r", "{DIR}/r.guard", "-d", "{DIR}/d.yaml", "-i", "{DIR}/p.yaml"] + sflags)
+        elif kind == "v-payload":
+            payload = json.dumps({"rules": [rules], "data": [data]})
+            s.update(cmd="validate", files={}, stdin=mut(payload), argv=["validate", "--payload"] + sflags)
+        elif kind in ("t-rules", "t-tests"):
+            tests = json.dumps([{"name": "c", "input": doc, "expectations": {"rules": {"r0": "PASS", "nope": "FAIL"}}}])
+            if rng.random() < 0.5:
+                tests = _yaml.safe_dump(json.loads(tests))
+            r_ = mut(rules) if kind == "t-rules" else rules
+            s.update(cmd="test", files={"r.guard": r_, "t.yaml": mut(tests) if kind == "t-tests" else tests},
+                     argv=["test", "-r", "{DIR}/r.guard", "-t", "{DIR}/t.yaml"] + rng.choice([[], ["-v"], ["-o", "json"], ["-o", "junit"], ["-o", "yaml"]]),
+                     mutated_rules=r_ if kind == "t-rules" else None)
+        elif kind == "pt":
+            r_ = mut(rules)
+            s.update(cmd="parse-tree", files={"r.guard": r_}, argv=["parse-tree", "-r", "{DIR}/r.guard"] + rng.choice([[], ["-p"], ["-y"]]), mutated_rules=r_)
+        elif kind == "rulegen":
+            t = json.dumps(c19_template(g, clean=False))
+            if rng.random() < 0.3:
+                t = _yaml.safe_dump(json.loads(t))
+            s.update(cmd="rulegen", files={"t.yaml": mut(t)}, argv=["rulegen", "-t", "{DIR}/t.yaml"])
+        else:
+            depth = rng.choice([10, 30, 60])
+            nd = c08_nested(depth, rng.choice(["json-list", "json-map", "yaml-flow", "yaml-block"]))
+            nr = "rule r { " + "a[ " * min(depth, 7) + "b == 1" + " ] !empty" * min(depth, 7) + "\n" + "when a exists { " * min(depth, 40) + "a exists" + " }" * min(depth, 40) + " }\n"
+            s.update(cmd="validate", files={"r.guard": nr if rng.random() < 0.5 else rules, "d.yaml": nd},
+                     argv=["validate", "-r", "{DIR}/r.guard", "-d", "{DIR}/d.yaml"] + sflags)
+        scen.append(s)
+    reqs = [{"id": i, "op": "cli", "argv": s["argv"], "files": {k: c08_wire(v) for k, v in s["files"].items()},
+             "stdin": c08_wire(s.get("stdin", b""))} for i, s in enumerate(scen)]
+    inproc = ctx.hp.map(reqs, timeout=20)
+    real_idx = [i for i in range(len(scen)) if i % (2 if ctx.thorough() else 3) == 0 or "died" in inproc[i]]
+    real = dict(zip(real_idx, vlib.run_cli_many([{"argv": scen[i]["argv"], "files": scen[i]["files"], "stdin": scen[i].get("stdin", b""),
+                                                  "timeout": 30} for i in real_idx])))
+    # nested-filter parse time (known finding F-C08-2 on the pinned tree): one probe, real binary, 20 s
+    probe = vlib.run_cli(["parse-tree", "-r", "{DIR}/r.guard"], files={"r.guard": C08_NESTED_FILTER_PROBE}, timeout=20)
+    res.evaluations += 1
+    res.stats["nested-filter-probe:%s" % probe["code"]] += 1
+    if probe["code"] == "timeout":
+        res.judge_failures.append({"what": "parse-tree on a rule with 24 nested filters did not finish in 20 s (parse time doubles per nesting level)",
+                                   "rules": C08_NESTED_FILTER_PROBE, "data": "", "class": "c08-nested-filter-parse-time"})
+    elif probe["code"] not in (0,):
+        res.judge_failures.append({"what": "parse-tree on a rule with 24 nested filters exits %s: %r" % (probe["code"], probe["stderr"][:200]),
+                                   "rules": C08_NESTED_FILTER_PROBE, "data": "", "class": "c08-nested-filter-%s" % probe["code"]})
+    # library verdict on every mutated rules text (which ones does the grammar reject?)
+    lidx = [i for i, s in enumerate(scen) if s.get("mutated_rules") is not None]
+    lreqs = []
+    for i in lidx:
+        try:
+            lreqs.append({"id": i, "op": "case", "rules": scen[i]["mutated_rules"].decode("utf-8"), "data": "{}", "verbose": False})
+        except UnicodeDecodeError:
+            lreqs.append(None)
+    lresp = {}
+    live = [(i, q) for i, q in zip(lidx, lreqs) if q is not None]
+    for (i, q), r in zip(live, ctx.hp.map([q for _, q in live], timeout=20)):
+        lresp[i] = r
+    for i, s in enumerate(scen):
+        res.evaluations += 1
+        res.stats["mutated:" + s["kind"]] += 1
+        info = {"argv": s["argv"], "files": {k: (v if isinstance(v, str) else v.decode("utf-8", "backslashreplace")) for k, v in s["files"].items()},
+                "files_hex": {k: v.hex() for k, v in s["files"].items() if not isinstance(v, str)},
+                "stdin_hex": s["stdin"].hex() if isinstance(s.get("stdin"), bytes) else None,
+                "rules": s["rules_text"], "data": s["data_text"], "kind": s["kind"]}
+        r = inproc[i]
+        if r.get("died") == 1 and s["cmd"] == "rulegen" and real[i]["code"] == 1 and (real[i]["stderr"] + real[i]["stdout"]).strip() \
+                and "panicked" not in real[i]["stderr"]:
+            # rulegen reports an unreadable template with a message and process::exit(1) from inside the library
+            res.stats["exit:rulegen:1(process::exit)"] += 1
+            res.nontrivial.add(vlib.sha(json.dumps(info["files"], sort_keys=True)))
+            continue
+        if "died" in r:
+            res.judge_failures.append(dict(info, what="in-process %s did not return: %s" % (s["cmd"], r["died"]), **{"class": "c08-died-%s-%s" % (s["cmd"], r["died"])}))
+            continue
+        rr = r.get("result") or {}
+        if "panic" in rr:
+            res.judge_failures.append(dict(info, what="%s panicked: %s" % (s["cmd"], rr["panic"][:200]), **{"class": c08_panic_class(s["cmd"], rr["panic"])}))
+            continue
+        code = rr.get("code")
+        res.stats["exit:%s:%s" % (s["cmd"], code)] += 1
+        if "clap" in rr:
+            res.stats["clap-rejected"] += 1
+        elif code not in C08_EXIT_DOC[s["cmd"]]:
+            res.judge_failures.append(dict(info, what="%s returned the undocumented exit code %s" % (s["cmd"], code), **{"class": "c08-exit-%s-%s" % (s["cmd"], code)}))
+        if i in real:
+            o = real[i]
+            oc = o["code"]
+            if oc == "timeout" or (isinstance(oc, str) and oc.startswith("signal")) or oc == 101 or "panicked at" in o["stderr"]:
+                res.judge_failures.append(dict(info, what="real binary: %s ended with %s; stderr %r" % (s["cmd"], oc, o["stderr"][:300]),
+                                               **{"class": c08_panic_class(s["cmd"], o["stderr"]) if oc == 101 or "panicked at" in o["stderr"] else "c08-process-%s-%s" % (s["cmd"], oc)}))
+            elif "clap" not in rr and oc != (code if code is not None and code >= 0 else 255) and not (code == -1 and oc == 255):
+                res.judge_failures.append(dict(info, what="real binary exits %s, in-process execute returned %s" % (oc, code), **{"class": "c08-exit-mismatch-%s" % s["cmd"]}))
+        text = (r.get("stdout", "") + r.get("stderr", ""))
+        if code in (0, 19, 7) or text.strip():
+            res.nontrivial.add(vlib.sha(json.dumps(info["files"], sort_keys=True) + str(info["stdin_hex"])))
+        # (C) grammar-rejected rules files
+        lr = lresp.get(i)
+        if lr is not None and "died" not in lr:
+            ast = lr.get("ast") or {}
+            if "panic" in ast:
+                res.judge_failures.append(dict(info, what="parser panicked: %s" % ast["panic"][:200], **{"class": c08_panic_class("parser", ast["panic"])}))
+            elif ast.get("err") == "ParseError":
+                res.stats["grammar-rejected:" + s["cmd"]] += 1
+                want = {"validate": (5,), "test": (1,), "parse-tree": (255, -1, 5)}[s["cmd"]]
+                msg = ast.get("msg", "")
+                if not _re.search(r"at line \d+ at column \d+", msg):
+                    res.judge_failures.append(dict(info, what="library parse error names no line and column: %r" % msg[:200], **{"class": "c08-parse-nolinecol-lib"}))
+                # the data file may itself be broken only in v-both; then either diagnostic is acceptable
+                if s["kind"] != "v-both":
+                    if code not in want:
+                        res.judge_failures.append(dict(info, what="rules file rejected by the grammar but %s exits %s" % (s["cmd"], code), **{"class": "c08-parse-exit-%s" % s["cmd"]}))
+                    elif not _re.search(r"at line \d+ at column \d+", text + str(rr.get("msg", ""))):
+                        res.judge_failures.append(dict(info, what="%s reports the parse error without line and column: %r" % (s["cmd"], (text + str(rr.get("msg", "")))[:200]),
+                                                       **{"class": "c08-parse-nolinecol-%s" % s["cmd"]}))
+                    if s["cmd"] == "validate" and "--structured" in s["argv"] and "json" in s["argv"]:
+                        try:
+                            rep = json.loads(r.get("stdout", ""))
+                            if any(fr.get("compliant") or fr.get("not_compliant") or fr.get("not_applicable") for fr in rep):
+                                res.judge_failures.append(dict(info, what="rules of a file rejected by the grammar were evaluated: %r" % r.get("stdout", "")[:300],
+                                                               **{"class": "c08-parse-evaluated"}))
+                        except Exception:
+                            pass
+            elif "ok" in ast:
+                res.stats["mutant-still-parses:" + s["cmd"]] += 1
+            else:
+                res.stats["mutant-other-error:%s" % ast.get("err")] += 1
+        if i < 4:
+            res.add_sample({"kind": s["kind"], "argv": s["argv"], "exit": code, "out_head": text[:160]})
+    return res
+
+
+register("C08", ["Guard.Properties.C08"], run_C08, needs_cli=True)
